@@ -73,7 +73,10 @@ type shardOut struct {
 }
 
 // setup installs the filter configuration the way Zeno does at start-up and opens a private seen-store.
-func setup(f Filter) []*regexp.Regexp {
+func setup(f Filter) []*regexp.Regexp { return setupFiles(f, nil) }
+
+// setupFiles is setup with the exclusion file(s) given by the caller (paths or http URLs).
+func setupFiles(f Filter, exFiles []string) []*regexp.Regexp {
 	slog.SetDefault(slog.New(slog.NewTextHandler(io.Discard, nil)))
 	tmp := os.Getenv("VERIF_TMP")
 	if tmp == "" {
@@ -85,7 +88,9 @@ func setup(f Filter) []*regexp.Regexp {
 	}
 	cfg := &config.Config{Job: "c05", UserAgent: "verif-c05", NoStdoutLogging: true, NoStderrLogging: true, NoFileLogging: true,
 		ExcludeHosts: f.ExHost, ExcludeString: f.ExStr, IncludeHosts: f.InHost, IncludeString: f.InStr}
-	if len(f.Regex) > 0 {
+	if exFiles != nil {
+		cfg.ExclusionFile = exFiles
+	} else if len(f.Regex) > 0 {
 		file := filepath.Join(dir, "exclusions.txt")
 		if err := os.WriteFile(file, []byte(strings.Join(f.Regex, "\n")+"\n"), 0o644); err != nil {
 			hkit.EngineError("%v", err)
@@ -249,6 +254,15 @@ func main() {
 			order = append(order, f.Sig)
 		}
 	}
+	lay := layoutGrid(nil)
+	for _, f := range lay.Failures {
+		if g := fails[f.Sig]; g != nil {
+			g.Count += f.Count
+			continue
+		}
+		fails[f.Sig] = f
+		order = append(order, f.Sig)
+	}
 	// identical signatures are reported once, with the first (simplest configuration) failing case
 	for _, sig := range order {
 		f := fails[sig]
@@ -281,12 +295,15 @@ func main() {
 	sort.Strings(sigs)
 	hkit.Evidence(propID, a.Tier, "exploration", map[string]any{
 		"evaluations": tot.Evals, "distinct_nontrivial": tot.Distinct,
-		"rule":        "distinct (tree position, filter configuration, URL of a request that left the real preprocess()) triples judged by the scope predicate",
-		"samples":     samples, "exhaustive": true,
+		"rule":    "distinct (tree position, filter configuration, URL of a request that left the real preprocess()) triples judged by the scope predicate",
+		"samples": samples, "exhaustive": true,
 		"requests_judged": tot.Requests, "evaluations_without_request": tot.NoRequest,
 		"skipped_parent_out_of_scope": tot.Skipped, "panics_in_preprocess": tot.Panics, "panic_example": tot.PanicEx,
 		"units": len(us), "filter_configurations": 32, "positions": pn,
-		"alphabets": products, "relative_forms": relForms, "relative_wrappers": textFocus.wrap, "relative_parents": relParents, "filters": filters()[31],
+		"exclusion_file_layouts":       lay.Layouts,
+		"exclusion_file_layout_cases":  lay.Cases,
+		"exclusion_file_layout_domain": "n regexes (1..3) x {one file, split over two files at every point} x {LF, CRLF} x {final newline or not} x {local path, http URL}, each loaded by the real GenerateCrawlConfig; a seed matching only the i-th regex must get no request",
+		"alphabets":                    products, "relative_forms": relForms, "relative_wrappers": textFocus.wrap, "relative_parents": relParents, "filters": filters()[31],
 		"authorities_of_judged_requests": tot.Hosts, "literal_readings_not_alarmed": notes, "failing_signatures": sigs, "per_unit": per,
 	}, []string{
 		"every request Zeno sends for crawled content is the one preprocess() attaches: archiver.archive sends item.GetURL().GetRequest() unchanged and the WARC client does not follow redirects itself (FollowRedirects unset); read in the code, not executed here (the `world` end-to-end engine of DESIGN.md does not exist in /verif/engine)",
@@ -311,6 +328,18 @@ func replay(path string) {
 	}
 	if err := json.Unmarshal(b, &p); err != nil {
 		hkit.EngineError("%v", err)
+	}
+	if p.Case.Layout != nil {
+		lo := layoutGrid(p.Case.Layout)
+		for _, f := range lo.Failures {
+			fmt.Printf("  %s: request for %s: %s\n", f.Sig, f.URL, f.Why)
+		}
+		if len(lo.Failures) == 0 {
+			fmt.Println("replay: no violation")
+			os.Exit(0)
+		}
+		fmt.Printf("VIOLATION property=%s replay=%s\n", propID, path)
+		os.Exit(1)
 	}
 	res := setup(p.Case.Filter)
 	defer cleanup()
